@@ -51,6 +51,15 @@ def cases(tier, seed):
             kw.update(dry=True)
         if m == 1:
             kw.update(dry=(i % 4 == 1))
+        if i % 9 == 5:
+            # heavy soils whose field capacity lies inside the aeration band below saturation: what
+            # the compartments remember of a wet spell must not survive into the next season
+            kw.update(soil_names=["Clay", "SiltClay", "Clay"], p_custom=0.0, iwc_kinds=("FC", "SAT"), p_gw=0.0,
+                      crops=["Wheat", "Maize", "Cotton", "Sorghum", "Sunflower", "Barley"], seasons=(2, 3))
+        if i % 9 == 7:
+            # transplanted crops after a season that ended in drought-induced early senescence
+            kw.update(crops=["Potato", "Tomato", "PaddyRice", "SugarBeet", "Cassava" if False else "Potato"], methods=(0,), dry=True,
+                      regimes=["arid", "warm"], p_file=0.0, p_gw=0.0, iwc_kinds=("Pct",), seasons=(2, 3))
         sp = gen.config(rng, **kw)
         if m == 4 and i % 2 == 0:
             # moist enough for roots to deepen, dry enough below Zmin for pre-irrigation to matter
